@@ -266,6 +266,10 @@ P_C01_DeliveredSendsAccepted ==
         /\ \A y \in Roles : src[1][y].cfg.vo /\ src[1][y].cfg.no)
      => \/ ROk
         \/ last.p.r.c \in {"InvalidBodyLengthError", "DenialOfServiceError"}
+        \* known finding sent_content_length_unparsed: a content-length that is not a number goes out (outbound validation
+        \* does not look at it); the receiving endpoint refuses the block
+        \/ /\ last.p.r.c = "ProtocolError"
+           /\ \E i \in 1..Len(InFrames) : InFrames[i].t \in {"HEADERS", "PP"} /\ HasCL(InFrames[i].h) /\ ~CLTok(InFrames[i].h).ci
         \* known finding sent_window_overflow_unchecked: update_settings announces an INITIAL_WINDOW_SIZE that, added to a stream
         \* window the same endpoint enlarged with increment_flow_control_window, exceeds 2^31-1 at the peer
         \* (the announcing endpoint fails in the same way when the acknowledgement comes back)
